@@ -205,21 +205,46 @@ fn run_real(files: &[(String, String)]) -> Observed {
 }
 
 fn run_real_defs(files: &[(String, String)], defs: &[(String, String)]) -> Observed {
-    run_real_full(files, defs).0
+    // (symbolic streams) a hand-over to the parser that is not the selected text is reported like a panic: `judge`
+    // turns it into a FAIL whatever the expectation is
+    let (o, flat) = run_real_full(files, defs);
+    if flat.iter().any(|t| t == PREPARE_DIFFERS) {
+        Observed::Panic("prepare_tokens hands the parser something else than the selected text".into())
+    } else {
+        o
+    }
 }
 
 /// observation + the flat list of token spellings that reached the output
 fn run_real_full(files: &[(String, String)], defs: &[(String, String)]) -> (Observed, Vec<String>) {
+    run_real_entry(files, defs, false)
+}
+
+/// marker pushed into the flat spelling list when `prepare_tokens` (the step between the preprocessor and the
+/// parser) hands on anything else than the non-blank tokens of the output, in order, closed by `Eof`
+const PREPARE_DIFFERS: &str = "@prepare_tokens-differs";
+
+/// `fragment`: go through the second public entry point `preprocess_fragment(text, name, ..)` (one file, no
+/// caller-supplied defines; the function supplies its own).  In both modes the result is also handed to
+/// `prepare_tokens`, and what comes out of it - that is what "reaches the parser" - must be exactly the
+/// non-blank tokens of the preprocessor's output.
+fn run_real_entry(files: &[(String, String)], defs: &[(String, String)], fragment: bool) -> (Observed, Vec<String>) {
     let mut flat: Vec<String> = Vec::new();
     let flat_ref = &mut flat;
     let r = guard(move || {
         let mut sm = rssl_text::SourceManager::new();
         let mut inc = MemFiles(files.to_vec());
         let d: Vec<(&str, &str)> = defs.iter().map(|(a, b)| (a.as_str(), b.as_str())).collect();
-        match rssl_preprocess::preprocess("main.rssl", &mut sm, &mut inc, &d) {
+        let res = if fragment {
+            rssl_preprocess::preprocess_fragment(&files[0].1, rssl_text::FileName(files[0].0.clone()), &mut sm)
+        } else {
+            rssl_preprocess::preprocess("main.rssl", &mut sm, &mut inc, &d)
+        };
+        match res {
             Ok(tokens) => {
                 let mut lines: Vec<String> = Vec::new();
                 let mut cur: Vec<String> = Vec::new();
+                let mut kept: Vec<&rssl_text::tokens::Token> = Vec::new();
                 for t in &tokens {
                     if t.0 == rssl_text::tokens::Token::Endline {
                         if !cur.is_empty() {
@@ -230,10 +255,18 @@ fn run_real_full(files: &[(String, String)], defs: &[(String, String)]) -> (Obse
                         let sp = rssl_preprocess::unlex(std::slice::from_ref(t), &sm);
                         flat_ref.push(sp.clone());
                         cur.push(sp);
+                        kept.push(&t.0);
                     }
                 }
                 if !cur.is_empty() {
                     lines.push(cur.join(" "));
+                }
+                let prepared = rssl_preprocess::prepare_tokens(&tokens);
+                let same = prepared.len() == kept.len() + 1
+                    && prepared.last().map(|t| t.0 == rssl_text::tokens::Token::Eof).unwrap_or(false)
+                    && prepared.iter().zip(kept.iter()).all(|(a, b)| a.0 == **b);
+                if !same {
+                    flat_ref.push(PREPARE_DIFFERS.to_string());
                 }
                 Observed::Ok(lines)
             }
@@ -351,6 +384,9 @@ fn judge_raw(rr: &raw::RefResult, obs: &Observed, flat: &[String]) -> String {
     match (&rr.expected, obs) {
         (_, Observed::Panic(p)) => format!("FAIL:panic {}", p),
         (raw::Expected::Skip(why), _) => format!("SKIP:{}", why),
+        (raw::Expected::Accept(_), Observed::Ok(_)) if flat.iter().any(|t| t == PREPARE_DIFFERS) => {
+            "FAIL:prepare_tokens hands the parser something else than the selected text".into()
+        }
         (raw::Expected::Accept(toks), Observed::Ok(_)) => {
             let want = raw::normalise(toks);
             let got = raw::normalise(flat);
@@ -871,66 +907,91 @@ fn do_request(line: &str, out: &mut Out, st: &mut Stats) {
             st.oracle.add(oracle.split(':').next().unwrap_or(""));
             out.case(line, &observation, &oracle);
         }
-        ["C11.raw", defs, rest @ ..] if !rest.is_empty() => {
-            // fields from `@toks` on are derived (the lexer's token streams, for the model): recomputed here
-            let rest: &[&str] = match rest.iter().position(|x| *x == "@toks") {
-                Some(k) => &rest[..k],
-                None => rest,
-            };
-            if rest.is_empty() {
-                out.case(line, "bad-request", "SKIP:bad request");
-                return;
-            }
-            let Some(defs) = parse_defs(defs) else {
-                out.case(line, "bad-request", "SKIP:bad request");
-                return;
-            };
-            // the value of an API define may carry an escaped line break (fix 3c81ed5: rejected as InvalidDefine)
-            let defs: Vec<(String, String)> = defs.into_iter().map(|(n, v)| (n, unescape(&v))).collect();
-            let mut files = vec![("main.rssl".to_string(), unescape(rest[0]))];
-            for f in &rest[1..] {
-                let p: Vec<&str> = f.splitn(2, '=').collect();
-                if p.len() == 2 {
-                    files.push((p[0].to_string(), unescape(p[1])));
-                }
-            }
-            st.ops.add("raw");
-            let (obs, flat) = run_real_full(&files, &defs);
-            let rr = raw::Ref::new(&files).run(&defs);
-            for s in &rr.stats {
-                st.kinds.add(s);
-            }
-            for h in &rr.hints {
-                st.kinds.add(&format!("skipped-has:{}", h));
-            }
-            let oracle = judge_raw(&rr, &obs, &flat);
-            match &obs {
-                Observed::Ok(l) => {
-                    st.outcome.add("ok");
-                    st.lines_kept.add(&format!("{}", l.len().min(9)));
-                }
-                Observed::Err(v) => st.outcome.add(v),
-                Observed::Panic(_) => st.outcome.add("panic"),
-            }
-            st.oracle.add(&match &rr.expected {
-                raw::Expected::Accept(_) => "raw-accept".to_string(),
-                raw::Expected::Reject(k, _) => format!("raw-reject:{}", k),
-                raw::Expected::Skip(w) => format!("raw-skip:{}", w.split(':').next().unwrap_or("")),
-            });
-            st.raw_verdict.add(oracle.split(' ').next().unwrap_or("").split('(').next().unwrap_or(""));
-            let mut echo: Vec<String> = vec!["C11.raw".to_string(), f[1].to_string()];
-            echo.extend(rest.iter().map(|x| x.to_string()));
-            echo.push("@toks".into());
-            for (n, v) in &defs {
-                echo.push(format!("D {}", model_tokens(&format!("{} {}", n, v), false, false)));
-            }
-            for (n, t) in &files {
-                echo.push(format!("F {} {}", n, model_tokens(t, true, true)));
-            }
-            out.case(&echo.join("\t"), &show_observed(&obs), &oracle);
-        }
+        ["C11.raw", defs, rest @ ..] if !rest.is_empty() => raw_request(line, Some(defs), rest, out, st),
+        // one text through `preprocess_fragment` (the entry point of the parser's test support and of every
+        // caller that has a string rather than files): same rules, one define supplied by the function itself
+        ["C11.frag", rest @ ..] if !rest.is_empty() => raw_request(line, None, rest, out, st),
         _ => out.case(line, "bad-request", "SKIP:bad request"),
     }
+}
+
+/// the define `preprocess_fragment` is documented to supply ("We mirror the semantics of HLSL 2021 in main output -
+/// so set the define in test fragments as well"): the oracle preprocesses the fragment as a file with this define
+const FRAGMENT_DEFINES: &[(&str, &str)] = &[("__HLSL_VERSION", "2021")];
+
+/// `C11.raw` (`defs_field` = the API defines, files `main.rssl` + `name=text`) and `C11.frag` (`defs_field` = None,
+/// one text, entry point `preprocess_fragment`)
+fn raw_request(line: &str, defs_field: Option<&str>, rest: &[&str], out: &mut Out, st: &mut Stats) {
+    let fragment = defs_field.is_none();
+    let defs = defs_field.unwrap_or("");
+        // fields from `@toks` on are derived (the lexer's token streams, for the model): recomputed here
+        let rest: &[&str] = match rest.iter().position(|x| *x == "@toks") {
+            Some(k) => &rest[..k],
+            None => rest,
+        };
+        if rest.is_empty() {
+            out.case(line, "bad-request", "SKIP:bad request");
+            return;
+        }
+        let Some(defs) = parse_defs(defs) else {
+            out.case(line, "bad-request", "SKIP:bad request");
+            return;
+        };
+        // the value of an API define may carry an escaped line break (fix 3c81ed5: rejected as InvalidDefine)
+        let defs: Vec<(String, String)> = defs.into_iter().map(|(n, v)| (n, unescape(&v))).collect();
+        let mut files = vec![("main.rssl".to_string(), unescape(rest[0]))];
+        for f in &rest[1..] {
+            let p: Vec<&str> = f.splitn(2, '=').collect();
+            if p.len() == 2 {
+                files.push((p[0].to_string(), unescape(p[1])));
+            }
+        }
+        if fragment && files.len() != 1 {
+            // the handler of `preprocess_fragment` knows the fragment only
+            out.case(line, "bad-request", "SKIP:bad request");
+            return;
+        }
+        st.ops.add(if fragment { "frag" } else { "raw" });
+        let (obs, flat) = run_real_entry(&files, &defs, fragment);
+        let oracle_defs: Vec<(String, String)> = if fragment {
+            FRAGMENT_DEFINES.iter().map(|(n, v)| (n.to_string(), v.to_string())).collect()
+        } else {
+            defs.clone()
+        };
+        let rr = raw::Ref::new(&files).run(&oracle_defs);
+        for s in &rr.stats {
+            st.kinds.add(s);
+        }
+        for h in &rr.hints {
+            st.kinds.add(&format!("skipped-has:{}", h));
+        }
+        let oracle = judge_raw(&rr, &obs, &flat);
+        match &obs {
+            Observed::Ok(l) => {
+                st.outcome.add("ok");
+                st.lines_kept.add(&format!("{}", l.len().min(9)));
+            }
+            Observed::Err(v) => st.outcome.add(v),
+            Observed::Panic(_) => st.outcome.add("panic"),
+        }
+        st.oracle.add(&match &rr.expected {
+            raw::Expected::Accept(_) => "raw-accept".to_string(),
+            raw::Expected::Reject(k, _) => format!("raw-reject:{}", k),
+            raw::Expected::Skip(w) => format!("raw-skip:{}", w.split(':').next().unwrap_or("")),
+        });
+        st.raw_verdict.add(oracle.split(' ').next().unwrap_or("").split('(').next().unwrap_or(""));
+        // a fragment request carries no defines: the model has to know what `preprocess_fragment` supplies
+        let mut echo: Vec<String> =
+            if fragment { vec!["C11.frag".to_string()] } else { vec!["C11.raw".to_string(), defs_field.unwrap_or("").to_string()] };
+        echo.extend(rest.iter().map(|x| x.to_string()));
+        echo.push("@toks".into());
+        for (n, v) in &defs {
+            echo.push(format!("D {}", model_tokens(&format!("{} {}", n, v), false, false)));
+        }
+        for (n, t) in &files {
+            echo.push(format!("F {} {}", n, model_tokens(t, true, true)));
+        }
+        out.case(&echo.join("\t"), &show_observed(&obs), &oracle);
 }
 
 fn unescape(s: &str) -> String {
@@ -1213,6 +1274,20 @@ fn random_runs(r: &mut Rng, n: u64, out: &mut Out, st: &mut Stats) {
 
 fn random_raw(r: &mut Rng, n: u64, n_cond: u64, n_deep: u64, n_reinc: u64, out: &mut Out, st: &mut Stats) {
     let mut kinds = Hist::default();
+    // programs of which nothing is selected (empty output), through both entry points
+    for i in 0..(n / 20) {
+        let case = rawgen::G::new(r, &mut kinds).empty_case();
+        if i % 3 == 0 && case.files.len() == 1 {
+            do_request(&rawgen::request_of_frag(&case), out, st);
+        } else {
+            do_request(&rawgen::request_of(&case), out, st);
+        }
+    }
+    // the second entry point: `preprocess_fragment`
+    for _ in 0..(n / 8) {
+        let case = rawgen::G::new(r, &mut kinds).frag_case();
+        do_request(&rawgen::request_of_frag(&case), out, st);
+    }
     for _ in 0..n_reinc {
         let case = rawgen::G::new(r, &mut kinds).reinclude_case();
         do_request(&rawgen::request_of(&case), out, st);
